@@ -13,6 +13,7 @@ import (
 // snapshots; private fields are never inspected.
 func snapRoot(rb *commonmark.RootBlock) string {
 	var sb strings.Builder
+	longTexts = 0
 	fmt.Fprintf(&sb, "ROOT off=[%d,%d) line=%d src=%q\n", rb.StartOffset, rb.EndOffset, rb.StartLine, rb.Source)
 	snapNode(&sb, rb.Source, rb.AsNode(), 0)
 	return sb.String()
@@ -22,10 +23,13 @@ func snapRoot(rb *commonmark.RootBlock) string {
 // tree is compared).
 func snapTree(rb *commonmark.RootBlock) string {
 	var sb strings.Builder
+	longTexts = 0
 	fmt.Fprintf(&sb, "src=%q\n", rb.Source)
 	snapNode(&sb, rb.Source, rb.AsNode(), 0)
 	return sb.String()
 }
+
+var longTexts int // inline nodes with a span over 4 KiB seen in the current snapshot
 
 func snapNode(sb *strings.Builder, src []byte, n commonmark.Node, depth int) {
 	for i := 0; i < depth; i++ {
@@ -72,8 +76,25 @@ func snapNode(sb *strings.Builder, src []byte, n commonmark.Node, depth int) {
 	if t := in.LinkTitle(); t != nil {
 		fmt.Fprintf(sb, " title=#%d", childIndex(in, t))
 	}
-	if txt := in.Text(src); txt != "" {
-		fmt.Fprintf(sb, " text=%q", txt)
+	// The library can produce thousands of inline nodes whose span runs to the
+	// end of a megabyte root block (a Text node after an inline HTML tag that
+	// ends an ATX heading inside a container, see DESIGN section 6); writing
+	// each one's text out would make the snapshot quadratic.  The span is in
+	// the snapshot in any case; the text of nodes longer than 4 KiB is written
+	// for the first 8 of them per root block, then as length + hash.
+	if in.Span().Len() > 4096 {
+		longTexts++
+	}
+	if in.Span().Len() <= 4096 || longTexts <= 8 {
+		if txt := in.Text(src); txt != "" {
+			if len(txt) > 4096 {
+				fmt.Fprintf(sb, " text=(%d bytes, hash %x)", len(txt), hashString(txt))
+			} else {
+				fmt.Fprintf(sb, " text=%q", txt)
+			}
+		}
+	} else {
+		sb.WriteString(" text=(not read: more than 8 nodes of this root block span over 4 KiB)")
 	}
 	sb.WriteByte('\n')
 	for i, c := 0, in.ChildCount(); i < c; i++ {
